@@ -7,7 +7,7 @@ import IoraModel.Gen.Timer
 
 Property theorems only (helper lemmas: `Lemmas/TimingWheel.lean`, `Lemmas/TimerService.lean`).
 Models: `Model/TimingWheel.lean` (the hierarchical wheel as repaired by F21/F22/F32) and `Model/TimerService.lean`
-(the epoll timer service as repaired by F23); shape facts come from the regenerated `Gen/Timer.lean`.
+(the epoll timer service as repaired by F23/F41); shape facts come from the regenerated `Gen/Timer.lean`.
 
 Wheel theorems quantify over EVERY operation list `ops : List Op` — any interleaving of
 `start / schedule / cancel / reschedule / advance / drain / stop`, with every clock value an input of the operation
